@@ -41,7 +41,7 @@ where CL03<CS>: Scheme<PubKey = CL03PublicKey, PrivKey = CL03SecretKey>, CS::Has
     let mut classes: Vec<(usize, Vec<usize>)> = vec![(1, vec![]), (1, vec![0]), (2, vec![1]), (3, vec![0, 2])];
     if env.thorough() { classes.push((2, vec![0, 1])); classes.push((3, vec![0, 1, 2])); classes.push((3, vec![])); }
     for (n, u) in classes { let nch = 16; for ch in 0..nch { roots.push(Root { id: format!("{}/leaf-edits/n{}/hidden{:?}/chunk{}", CS::NAME, n, u, ch), n, u: u.clone(), kind: Kind::Leaf(ch, nch) }); } }
-    env.ctx.set_rule("flows: n in 1..=3 (thorough 1..=5) x ALL subsets U of hidden positions (none, some, all), commitment key over the issuer modulus: sign_multiattr -> proof_gen(U) -> proof_verify(revealed, U, n) = true; statement edits (each => false, panic counts as refusal): each revealed attribute changed / dropped / duplicated, other signer key, other bases, other commitment key (other h, other g_i, own modulus), EVERY other hidden set U', n +- 1. Leaf edits: EVERY integer leaf of the serialized proof +1 / -1 / zero / sibling swap => false. State = (flow, edit); non-trivial = the real verifier ran.");
+    env.ctx.set_rule("flows: n in 1..=3 (thorough 1..=5) x ALL subsets U of hidden positions (none, some, all), commitment key over the issuer modulus: sign_multiattr -> proof_gen(U) -> proof_verify(revealed, U, n) = true; statement edits (each => false, panic counts as refusal): each revealed attribute changed / dropped / duplicated, other signer key, other bases, other commitment key (other h, other g_i, own modulus, and every single field N / h / g_i altered alone), every single field of the signer key and every base altered alone, EVERY other hidden set U', n - 1, n + 1 and n + 2 (with and without extra revealed attributes). Leaf edits: EVERY integer leaf of the serialized proof +1 / -1 / zero / sibling swap => false. State = (flow, edit); non-trivial = the real verifier ran.");
     par_for(&roots, |_, r| {
         if !env.want(&r.id) || env.ctx.out_of_time() { return; }
         let n = r.n;
@@ -82,6 +82,19 @@ where CL03<CS>: Scheme<PubKey = CL03PublicKey, PrivKey = CL03SecretKey>, CS::Has
                 { let bigger = Bases(w.bases.0[..n + 1].to_vec()); let cbig = CL03CommitmentPublicKey { N: w.cpk.N.clone(), h: w.cpk.h.clone(), g_bases: w.cpk.g_bases[..n + 1].to_vec() };
                   // (an extra revealed attribute 0 is NOT a different statement: a^0 = 1, the signature genuinely verifies on (m, 0); not judged)
                   let mut rev3 = revealed.clone(); rev3.push(Integer::from(5)); rej("n + 1 (extra revealed attribute 5)".into(), "attribute-count", &cbig, &w.pk, &bigger, &rev3, &r.u, n + 1); }
+                // larger attribute counts WITHOUT supplying more revealed attributes (the revealed list is then too short for the claimed count)
+                for extra in 1..=2usize { if w.bases.0.len() >= n + extra && w.cpk.g_bases.len() >= n + extra {
+                    let bigger = Bases(w.bases.0[..n + extra].to_vec()); let cbig = CL03CommitmentPublicKey { N: w.cpk.N.clone(), h: w.cpk.h.clone(), g_bases: w.cpk.g_bases[..n + extra].to_vec() };
+                    rej(format!("n + {} with the same revealed attributes", extra), "attribute-count", &cbig, &w.pk, &bigger, &revealed, &r.u, n + extra);
+                } }
+                // single-field edits of the commitment key (N alone, h alone, each g_i alone)
+                for (nm, d) in [("N := N + 2", 2i32), ("N := N - 2", -2)] { let mut c4 = cpk.clone(); c4.N += d; rej(format!("commitment key: {}", nm), "other-commitment-key", &c4, &w.pk, &bases, &revealed, &r.u, n); }
+                { let mut c5 = cpk.clone(); c5.N = w.cpk_own.N.clone(); rej("commitment key: N := another modulus (h, g_i kept)".into(), "other-commitment-key", &c5, &w.pk, &bases, &revealed, &r.u, n); }
+                { let mut c6 = cpk.clone(); c6.h += 1u32; rej("commitment key: h := h + 1".into(), "other-commitment-key", &c6, &w.pk, &bases, &revealed, &r.u, n); }
+                for gi in 0..n { let mut c7 = cpk.clone(); c7.g_bases[gi] += 1u32; rej(format!("commitment key: g_{} := g_{} + 1", gi, gi), "other-commitment-key", &c7, &w.pk, &bases, &revealed, &r.u, n); }
+                // single-field edits of the signer key
+                for (nm, f) in [("N", 0usize), ("b", 1), ("c", 2)] { let mut pk2 = w.pk.clone(); match f { 0 => pk2.N += 2u32, 1 => pk2.b += 1u32, _ => pk2.c += 1u32 }; rej(format!("signer key: {} altered", nm), "other-key", &cpk, &pk2, &bases, &revealed, &r.u, n); }
+                for bi in 0..n { let mut b4 = bases.clone(); b4.0[bi] += 1u32; rej(format!("bases: a_{} := a_{} + 1", bi, bi), "other-bases", &cpk, &w.pk, &b4, &revealed, &r.u, n); }
                 if n >= 1 { let u2: Vec<usize> = r.u.iter().copied().filter(|&i| i < n - 1).collect(); let rev2: Vec<Integer> = (0..n - 1).filter(|i| !u2.contains(i)).map(|i| m[i].clone()).collect(); if u2.len() == r.u.len() || !r.u.contains(&(n - 1)) { rej("n - 1".into(), "attribute-count", &cpk, &w.pk, &bases, &rev2, &u2, n - 1); } }
                 if n == 3 && r.u == vec![0, 2] { env.ctx.sample(json!({"root": r.id, "edits": "revealed attributes, keys, bases, commitment keys, every other hidden set, n +- 1"})); }
             }
